@@ -136,6 +136,97 @@ pub struct Merged {
     pub interleavings: BTreeSet<u64>,
 }
 
+fn env_canary(exe: &str, set: Option<(&str, &str)>, unset: &[String]) -> Option<String> {
+    let mut c = Command::new(exe);
+    c.arg("envcanary").stdin(Stdio::null()).stderr(Stdio::null());
+    for n in unset {
+        c.env_remove(n);
+    }
+    if let Some((k, v)) = set {
+        c.env(k, v);
+    }
+    let o = c.output().ok()?;
+    let t = String::from_utf8_lossy(&o.stdout).trim().to_string();
+    if o.status.success() && t.len() == 16 {
+        Some(t)
+    } else {
+        None
+    }
+}
+
+/// Environment leg (C17, "in which process"): the environment variables a process
+/// of the library actually reads are discovered by tracing getenv (ltrace), then a
+/// canary process is started once per discovered variable and candidate value and
+/// its result digest compared with the baseline.  A result that depends on an
+/// environment variable differs between two processes of the same program.
+fn env_leg(m: &mut Merged) -> Vec<Value> {
+    let exe = std::env::current_exe().unwrap().to_string_lossy().to_string();
+    let trace = format!("{}/sim/work/getenv-trace.txt", verif_root());
+    let _ = std::fs::remove_file(&trace);
+    let st = Command::new("ltrace")
+        .args(["-x", "getenv", "-e", "", "-o", &trace, &exe, "envcanary"])
+        .stdin(Stdio::null())
+        .stdout(Stdio::null())
+        .stderr(Stdio::null())
+        .status();
+    let text = std::fs::read_to_string(&trace).unwrap_or_default();
+    let _ = std::fs::remove_file(&trace);
+    if st.is_err() || !text.contains("exited") {
+        return vec![json!({"leg": "environment", "status": "unavailable (ltrace could not trace the canary process)"})];
+    }
+    let mut names: Vec<String> = Vec::new();
+    for l in text.lines() {
+        if let Some(i) = l.find("getenv") {
+            if let Some(a) = l[i..].find("(\"") {
+                let rest = &l[i + a + 2..];
+                if let Some(b) = rest.find('"') {
+                    let n = rest[..b].to_string();
+                    if !n.is_empty() && !names.contains(&n) && n.chars().all(|c| c.is_ascii_alphanumeric() || c == '_') {
+                        names.push(n);
+                    }
+                }
+            }
+        }
+    }
+    names.truncate(40);
+    let base = match env_canary(&exe, None, &names) {
+        Some(b) => b,
+        None => return vec![json!({"leg": "environment", "status": "canary process failed"})],
+    };
+    let values = ["0", "1", "2", "3", "true", "-1", "1000000", ""];
+    let mut tried = 0u64;
+    let mut dependent: Vec<Value> = Vec::new();
+    for n in &names {
+        for v in values {
+            tried += 1;
+            match env_canary(&exe, Some((n, v)), &names) {
+                Some(d) if d == base => {}
+                Some(d) => {
+                    dependent.push(json!({"variable": n, "value": v, "digest": d, "baseline": base}));
+                    *m.found_per_class.entry("result-depends-on-environment-variable".into()).or_insert(0) += 1;
+                    m.found_total += 1;
+                    m.found.push((
+                        u64::MAX - 100,
+                        0,
+                        Found {
+                            class: "result-depends-on-environment-variable".into(),
+                            key: format!("C17:env:{}", n),
+                            detail: json!({"variable": n, "value": v, "baseline_digest": base, "digest_with_variable_set": d}),
+                            case: json!({"kind": "env", "variable": n, "value": v, "unset": names}),
+                        },
+                    ));
+                    break;
+                }
+                None => {
+                    // the canary process died with this setting (e.g. a loader variable): not judged
+                }
+            }
+        }
+    }
+    *m.stats.entry("environment_canary_processes".into()).or_insert(0) += tried + 1;
+    vec![json!({"leg": "environment", "variables_read_by_the_process": names, "settings_tried": tried, "dependent": dependent})]
+}
+
 /// Miri leg (C17): plain std threads and plain f64 sharing one sampler (or using
 /// two different samplers at once) under Miri's own seeded scheduler.  Miri
 /// preempts between basic blocks, so it reaches windows that contain no seam
@@ -375,6 +466,7 @@ pub fn check(p: &dyn Property, thorough: bool, meta: Meta) -> i32 {
     let mut legs = cross_process_leg(p, thorough, seed, total, &mut m);
     if p.id() == "C17" {
         legs.extend(miri_leg(thorough, seed, &mut m));
+        legs.extend(env_leg(&mut m));
     }
     if let Ok(path) = std::env::var("VERIF_DUMP_FOUND") {
         let _ = write_json(&path, &m.found);
@@ -424,7 +516,7 @@ pub fn check(p: &dyn Property, thorough: bool, meta: Meta) -> i32 {
         let (idx, rseed, first) = (cand.0, cand.1, &cand.2);
         let os_variant = first.case.get("variant").map(|v| v == "os").unwrap_or(false);
         let vexe = if os_variant { std::env::var("MOMSIM_OS_EXE").unwrap_or(exe.clone()) } else { exe.clone() };
-        let min = if os_variant || first.case["kind"] == "miri" { first.clone() } else { p.minimise(first) };
+        let min = if os_variant || first.case["kind"] == "miri" || first.case["kind"] == "env" { first.clone() } else { p.minimise(first) };
         if let Some(k) = known.open.iter().find(|k| k.property == p.id() && k.key == min.key) {
             // minimisation landed on a known case; the unminimised one is still new
             let _ = k;
@@ -441,7 +533,9 @@ pub fn check(p: &dyn Property, thorough: bool, meta: Meta) -> i32 {
             "violation": min.detail,
             "case": min.case,
             "variant": if os_variant { "os" } else { "sim" },
-            "replay": if min.case["kind"] == "miri" {
+            "replay": if min.case["kind"] == "env" {
+                "exact: starts the canary process with and without the environment variable and compares result digests"
+            } else if min.case["kind"] == "miri" {
                 "exact: cargo +nightly miri run with -Zmiri-seed=<miri_seed> re-executes the same schedule"
             } else if min.case["kind"] == "xproc" {
                 "statistical: re-runs the run in 6 fresh processes of the os build (real OS hash keys, own address space) and compares result digests; reproduces with overwhelming probability, not exactly"
@@ -449,7 +543,7 @@ pub fn check(p: &dyn Property, thorough: bool, meta: Meta) -> i32 {
         });
         write_json(&path, &file).expect("write replay");
         let mut ok = verify_replay(&vexe, &path);
-        if !ok && min.case["kind"] != "xproc" && min.case["kind"] != "miri" {
+        if !ok && min.case["kind"] != "xproc" && min.case["kind"] != "miri" && min.case["kind"] != "env" {
             // the failure needs the history of its worker process: replay the
             // worker's whole run sequence up to the failing run
             let (nw, total) = if os_variant {
@@ -592,6 +686,21 @@ pub fn replay(props: &[&dyn Property], path: &str) -> i32 {
         }
     };
     let case = &v["case"];
+    if case["kind"] == "env" {
+        let exe = std::env::current_exe().unwrap().to_string_lossy().to_string();
+        let unset: Vec<String> = case["unset"].as_array().map(|a| a.iter().filter_map(|x| x.as_str().map(|s| s.to_string())).collect()).unwrap_or_default();
+        let name = case["variable"].as_str().unwrap_or("");
+        let value = case["value"].as_str().unwrap_or("");
+        let a = env_canary(&exe, None, &unset);
+        let b = env_canary(&exe, Some((name, value)), &unset);
+        crate::say!("canary digest without {}: {:?}; with {}={:?}: {:?}", name, a, name, value, b);
+        if a.is_some() && b.is_some() && a != b {
+            crate::say!("VIOLATION property={} replay={} class={}", pid, path, class);
+            return 1;
+        }
+        crate::say!("replay: class {} did NOT reproduce", class);
+        return 0;
+    }
     if case["kind"] == "miri" {
         let dir = format!("{}/miri", std::env::var("MOMSIM_BUILD_ROOT").unwrap_or(format!("{}/sim/build", verif_root())));
         let flags = match case["miri_seed"].as_u64() {
